@@ -32,13 +32,13 @@ def shards(tier, seed):
     for i in range(6):
         out.append({"name": f"typelen{i}", "kind": "typelen", "part": i, "parts": 6, "picks": 3 if q else 12})
     for i in range(4 if q else 12):
-        out.append({"name": f"random{i}", "kind": "random", "n": 8000 if q else 120000})
+        out.append({"name": f"random{i}", "kind": "random", "n": 25000 if q else 120000})
     for i in range(4 if q else 12):
-        out.append({"name": f"prefix{i}", "kind": "prefix", "msgs": 150 if q else 1500})
+        out.append({"name": f"prefix{i}", "kind": "prefix", "msgs": 400 if q else 1500})
     for i in range(4 if q else 12):
-        out.append({"name": f"flip{i}", "kind": "flip", "msgs": 100 if q else 1200, "per": 60 if q else 150})
+        out.append({"name": f"flip{i}", "kind": "flip", "msgs": 100 if q else 1200, "per": 120 if q else 150})
     for i in range(4 if q else 12):
-        out.append({"name": f"lenfield{i}", "kind": "lenfield", "msgs": 150 if q else 1800})
+        out.append({"name": f"lenfield{i}", "kind": "lenfield", "msgs": 400 if q else 1800})
     return out
 
 
